@@ -1,0 +1,14 @@
+//go:build verif
+// +build verif
+
+package bitcoin_reader
+
+import (
+	"time"
+)
+
+// VerifSetRequestTimeout changes the tx request timeout of a running manager, so that a harness
+// can decide which outstanding requests count as expired without sleeping.
+func (m *TxManager) VerifSetRequestTimeout(d time.Duration) {
+	m.requestTimeout.Store(d)
+}
